@@ -5,6 +5,7 @@
 -/
 import PintModel.Model.GroupSys
 import PintModel.Proofs.RuleInversion
+import PintModel.Gen.SystemRules
 import PintModel.Gen.DefaultRegistry
 
 namespace Pint.Props.C14
@@ -166,6 +167,17 @@ theorem C14_rule_short_sound {R : Registry} {new o : String} {repl : UC}
       ∀ k, GS.expoIn repl new [(o, value)] k = if k = o then 1 else 0 := by
   obtain ⟨value, he, hv, hr⟩ := GS.systemRule_short h
   exact ⟨value, he, fun k => by rw [hr]; exact GS.invertShort_sound new o value hv hne k⟩
+
+/-- the formulas of the model are the formulas of the source: `Gen/SystemRules.lean` is translated from
+    `System.from_definition` on every run (the three exponent expressions and the filter of the comprehension) -/
+theorem C14_rule_formulas_from_source (exp : UC) (new old : String) :
+    Gen.SystemRules.problems = [] ∧ Gen.SystemRules.longFilter = "KEY != old_unit" ∧
+    GS.invertLong exp new old =
+      ((exp.filter (fun p => p.1 != old)).map fun p => (p.1, Gen.SystemRules.longOther p.2 (exp.get old)))
+        ++ [(new, Gen.SystemRules.longNew (exp.get old))] ∧
+    (∀ value : Rat, Gen.SystemRules.shortNew value = 1 / value) := by
+  refine ⟨by decide, by decide, ?_, fun _ => rfl⟩
+  simp only [GS.invertLong, Gen.SystemRules.longOther, Gen.SystemRules.longNew]
 
 /-- non-vacuity on the bundled registry: `g_0 : meter` gives meter = g_0 * second ** 2 -/
 example : (GS.systemRule Gen.defaultRegistry ("standard_gravity", some "meter")).toOption
